@@ -15,6 +15,9 @@ A == IntSeq(sig)
 Levels ==
     {[mode |-> "db", snr |-> <<RInt(d)>>, std |-> One] : d \in {-20, -10, 0, 10, 20, 30}}
     \cup {[mode |-> "linear", snr |-> <<r>>, std |-> One] : r \in {<<1, 4>>, One, RInt(4), RInt(100)}}
+    \* a level AND an explicit std in one call: the level decides ("... or the given std when no SNR is given"; seed C15j)
+    \cup {[mode |-> "db", snr |-> <<RInt(d)>>, std |-> RInt(2)] : d \in {0, 10}}
+    \cup {[mode |-> "linear", snr |-> <<RInt(4)>>, std |-> <<1, 2>>]}
     \cup {[mode |-> "std", snr |-> <<One>>, std |-> s] : s \in {<<1, 2>>, RInt(2)}}
     \cup {[mode |-> "db", snr |-> [i \in 1..Len(sig) |-> RInt(IF Mod(i, 2) = 0 THEN 20 ELSE 0)], std |-> One],
           [mode |-> "linear", snr |-> [i \in 1..Len(sig) |-> RInt(i * i)], std |-> One]}
